@@ -434,7 +434,10 @@ def _ext_np_array(e, args, kw, node, st):
 
 
 def _ext_kdtree(e, args, kw, node, st):
-    """scipy.spatial.KDTree(points): an object holding the points (its only observable use here is query_pairs)"""
+    """scipy.spatial.KDTree(points): an object holding the points (its only observable use here is query_pairs).
+    numpy.array([]) is 1-dimensional and KDTree rejects it: ValueError("data must be of shape (n, m)") for an empty point list"""
+    from pyvc.values import to_z3
+    e.may_raise(to_z3(args[0].length) <= 0, "ValueError", node)
     return e.construct("KDTree", [args[0]], {}, node, st)
 
 
@@ -517,6 +520,9 @@ class filter_single_c:
     params = {"atoms": "list[rec[Atom]]", "clash_distance": "real"}
     defaults = {"clash_distance": _Fraction(1, 2)}
     requires = ["forall(lambda t: implies(0 <= t and t < len(atoms), atoms[t].model == atoms[0].model))", "clash_distance >= 0"]
+    # an EMPTY atom list raises ValueError (scipy's KDTree refuses the empty coordinate array) - and only an empty one
+    # (ghost assertion `ValueError-only-for-an-empty-list`); candidate finding, see props/C08.py
+    raises = {"ValueError": "len(atoms) == 0"}
     returns = "list[rec[Atom]]"
     ensures = [
         # the result lists the surviving kept copies (positions KF of UL), each once, in the arbitrary order E of the set iteration
@@ -532,7 +538,6 @@ class filter_single_c:
     ensures_labels = {0: "result-atoms-are-kept-copies-each-once", 1: "every-result-atom-is-an-input-atom", 2: "one-atom-per-residue-and-name",
                       3: "the-highest-occupancy-copy", 4: "of-two-atoms-within-the-clash-distance-only-one",
                       5: "a-kept-copy-survives-unless-it-lost-a-clash-comparison", 6: "one-kept-copy-of-highest-occupancy-per-residue-and-name"}
-    raises = []
     modifies = []
     locals = {"unique_atoms": "dict[" + KEY + ",rec[Atom]]", "result": "list[rec[Atom]]"}
     ghost_entry = ["let UL = empty('list[rec[Atom]]')", "let LW = empty('dict[int,int]')", "let KF = empty('set[int]')"]
@@ -566,6 +571,8 @@ class filter_single_c:
     ]
     ghost_exit = ["let E = last_enum()"]
     ghost += [
+        {"when": "before", "at": "tree = KDTree(coords)", "label": "ValueError-only-for-an-empty-list",
+         "do": ["assert implies(len(atoms) >= 1, len(coords) >= 1)"]},
         {"when": "after", "at": "atoms_to_keep.discard(j)", "loop": 2, "label": "j-lost", "do": ["let LW = dstore(LW, j, n2)"]},
         {"when": "after", "at": "atoms_to_keep.discard(i)", "loop": 2, "label": "i-lost", "do": ["let LW = dstore(LW, i, n2)"]},
         # both summaries of the clash loop are proved from the loop's own facts only: the KD-tree contract, the 4 facts of the pair
@@ -647,6 +654,8 @@ class filter_clashing_atoms_c(filter_single_c):
         "G_no_clash(result, clash_distance)",
     ]}
     ghost = [g for g in filter_single_c.ghost if g["label"] != "one-model"] + [
+        {"when": "before", "at": "result.extend(", "loop": 0, "label": "every-model-has-an-atom",
+         "do": ["assert exists(lambda t: 0 <= t and t < len(atoms) and atoms[t].model == model)"]},
         {"when": "before", "at": "unique_atoms = {}", "label": "one-model",
          "do": ["assert forall(lambda t: implies(0 <= t and t < len(atoms), atoms[t].model == atoms[0].model))"]},
     ]
@@ -656,7 +665,8 @@ class parse_pdb_decode_c:
     """D = the atoms decoded from the lines (before filter_clashing_atoms); SRC[j] = line of D[j]; MS[j] = line of the MODEL
     record governing D[j] (-1: none); POS[l] = position in D of the atom of line l"""
     params = {"pdb": "IO"}
-    requires = ["wf_pdb(pdb.lines)"]
+    # a file without any ATOM/HETATM record makes filter_clashing_atoms([]) raise ValueError (see there): excluded here
+    requires = ["wf_pdb(pdb.lines)", "exists(lambda l: 0 <= l and l < len(pdb.lines) and is_atom_line(pdb.lines[l]))"]
     returns = "tuple[list[rec[Atom]],dict[rec[ResidueAuth],str],dict[str,str],dict[str,bool]]"
     ghost_returns = {"D": "list[rec[Atom]]", "SRC": "list[int]", "MS": "list[int]", "POS": "list[int]"}
     ensures = [
